@@ -1,6 +1,6 @@
 """C06 — replicas converge: command->delta and delta->executor glue clauses."""
 import re
-from .facts import callee, op_place, op_local
+from .facts import callee_names, callee, op_place, op_local
 from .lib import src_of_operand, src_of_place, is_callee, TRANSPARENT, switch_info, edge_targets
 from . import lib2
 
@@ -22,6 +22,9 @@ def run(ck, ctx):
                      "into the executor is decided from the merged value only, never from the incoming delta (no stale-delta shortcut)")
     ck.rule("R06.6", "stamps are compared as a whole: conflict resolution never orders two Lamport stamps by `.time` alone (the replica "
                      "id tie-break is part of the order)")
+    ck.rule("R06.7", "every local update is handed to replication: in ReplicatedShardedState::execute a delta returned by the shard reaches "
+                     "queue_deltas on every path when replication is enabled (both gossip back ends), and apply_remote_deltas forwards "
+                     "every received delta to the shard that owns its key")
     ck.nd("convergence over delivery orders, duplication, partitions; gossip/anti-entropy liveness; TTL agreement (algebra: C07)")
     for cfg in ctx.configs:
         prog = ctx.prog(cfg)
@@ -32,6 +35,7 @@ def run(ck, ctx):
         _r063(ck, prog, cfg)
         _r065(ck, prog, cfg)
         r066(ck, prog, cfg, "R06.6")
+        _r067(ck, prog, cfg)
 
 
 def _r061(ck, prog, cfg):
@@ -335,3 +339,79 @@ def r066(ck, prog, cfg, rid):
                 n += 1
                 ck.ok(rid, "%s:whole-stamp-comparison#%d%s" % (f.id.replace("replication::", ""), n, _tag(cfg)), "stamps compared with the total order")
     ck.floor(rid + _tag(cfg), n, 2)
+
+
+def _r067(ck, prog, cfg):
+    from .lib import edge_targets
+    fn = prog.one("production::replicated_state::ReplicatedShardedState::<T>::execute::{closure#0}")
+    shard_exec = [b for b, t in fn.calls() if is_callee(t, r"ReplicatedShardHandle::execute$")]
+    queues = {b for b, t in fn.calls() if is_callee(t, r"GossipState::queue_deltas$", r"GossipActorHandle::queue_deltas$")}
+    ck.check(len(shard_exec) == 1 and len(queues) >= 2, "R06.7", "sites" + _tag(cfg),
+             "expected one shard execute and a queue_deltas call per gossip back end (found %d / %d)" % (len(shard_exec), len(queues)), fn.where())
+    if len(shard_exec) != 1 or not queues:
+        return
+    aw = lib2.await_result(fn, shard_exec[0])
+    start = aw[1] if aw else shard_exec[0]
+    exempt = set()
+    for sb in sorted(fn.reachable_blocks()):
+        si = switch_info(fn, sb)
+        if not si:
+            continue
+        # no delta produced
+        if si["kind"] == "discr" and si["ty"].startswith("std::option::Option<") and "ReplicationDelta" in si["ty"]:
+            exempt.add((sb, edge_targets(fn, sb, 0)))
+        # replication switched off
+        if si["kind"] == "val" and si["src"].kind == "path" and si["src"].fields[-2:] == ("config", "enabled"):
+            tt, ft = lib2.bool_edges(fn, sb)
+            exempt.add((sb, ft))
+    path = lib2.path_avoiding(fn, start, lambda x: fn.term(x)["k"] == "return", lambda x: x in queues, exempt, from_succ=False)
+    lines = []
+    for x in path or []:
+        ln = fn.term(x).get("ln")
+        if ln and (not lines or lines[-1] != ln):
+            lines.append(ln)
+    ck.check(path is None, "R06.7", "execute:delta-reaches-gossip" + _tag(cfg),
+             "a delta produced by a local write can reach the reply without being queued for gossip although replication is enabled (lines %s): "
+             "peers never learn of the write" % lines[:12], fn.where(fn.term(shard_exec[0])["ln"]), detail="queue_deltas on every path (exits: no delta, replication disabled)")
+    # what is queued is that delta
+    for qb in sorted(queues):
+        t = fn.term(qb)
+        o = t["args"][1]
+        els = lib2.vec_macro_elems(fn, o)
+        if els is not None and len(els) == 1:
+            o = els[0]
+        from_shard = False
+        for _ in range(10):
+            ss = src_of_operand(fn, o, through_calls=(r"Arc::<.*>::clone$", r"Clone>::clone$", r"Deref>::deref$", r"Arc::<.*>::try_unwrap$",
+                                                      r"Result::<.*>::unwrap_or_else", r"Arc::<.*>::new$"))
+            if ss.kind == "agg" and ss.rv.get("ops"):
+                o = ss.rv["ops"][0]
+                continue
+            if ss.kind != "call":
+                break
+            if "ReplicatedShardHandle::execute" in " ".join(callee_names(ss.term)):
+                from_shard = True
+                break
+            if not ss.term["args"]:
+                break
+            o = ss.term["args"][0]
+        ck.check(from_shard, "R06.7", "execute:queued-value-is-the-shard-delta#%d%s" % (sorted(queues).index(qb), _tag(cfg)),
+                 "queue_deltas is not given the delta the shard returned", fn.where(t["ln"]), detail="vec![delta] from the shard's reply")
+    # receiving side: every delta of the batch goes to shard hash_key(delta.key)
+    ar = prog.one("production::replicated_state::ReplicatedShardedState::<T>::apply_remote_deltas")
+    sends = [(b, t) for b, t in ar.calls() if is_callee(t, r"ReplicatedShardHandle::apply_remote_delta$")]
+    ck.check(len(sends) == 1, "R06.7", "apply_remote_deltas:forwards" + _tag(cfg), "apply_remote_deltas does not forward to exactly one shard call", ar.where())
+    for b, t in sends:
+        idx = [tt for bb, tt in ar.calls() if is_callee(tt, r"Index<.*>>::index$")]
+        good = False
+        for it in idx:
+            i = src_of_operand(ar, it["args"][1])
+            if i.kind == "call" and is_callee(i.term, r"replicated_state::hash_key$", r"::hash_key$"):
+                k = src_of_operand(ar, i.term["args"][0], through_calls=TRANSPARENT + (r"Deref>::deref$", r"String::as_str$"))
+                good = k.kind in ("path", "call") and "key" in k.fields
+        ck.check(good, "R06.7", "apply_remote_deltas:owner-shard" + _tag(cfg), "the receiving shard is not hash_key(delta.key)", ar.where(t["ln"]),
+                 detail="shards[hash_key(&delta.key)]")
+        # inside the loop over all deltas, no filter
+        skips = [callee(tt).rsplit("::", 1)[-1] for bb, tt in ar.calls() if is_callee(tt, r"Iterator>::(filter|take|skip|step_by|take_while|skip_while|filter_map)\b")]
+        ck.check(not skips, "R06.7", "apply_remote_deltas:all-deltas" + _tag(cfg), "received deltas are filtered/truncated (%s) before being applied" % skips, ar.where(),
+                 detail="every delta of the batch is forwarded")
